@@ -359,27 +359,27 @@ theorem SInv_applySlash {s s' : SState} {v : String} {vi : ValInfo} {rem : Dec} 
     (hv : get? s.vinfo v = some vi) (h : applySlash s v vi rem = .ok s') : SInv s' := by
   unfold applySlash at h
   split at h
-  · simp only [Outcome.ok.injEq] at h; subst h
-    refine ⟨?_, ?_, hi.comm_le⟩
-    · intro w vi2 d hw hd
-      simp only [get?_set] at hw
-      by_cases e : w = v
-      · subst e; simp only [ite_true, Option.some.injEq] at hw; subst hw; simp at hd
-      · simp only [e, ite_false] at hw
-        have := hi.stakers_have w vi2 d hw hd
-        simpa [get?_removeAll, e] using this
-    · intro d w sh hsh
-      simp only [get?_removeAll] at hsh
-      split at hsh
-      · simp at hsh
-      · rename_i hn
-        obtain ⟨vi2, hv2, hd⟩ := hi.stakes_listed d w sh hsh
-        by_cases e : w = v
-        · subst e
-          rw [hv] at hv2; simp only [Option.some.injEq] at hv2; subst hv2
-          exact absurd ⟨rfl, hd⟩ hn
-        · exact ⟨vi2, by simp [get?_set, e, hv2], hd⟩
   · split at h
+    · simp only [Outcome.ok.injEq] at h; subst h
+      refine ⟨?_, ?_, hi.comm_le⟩
+      · intro w vi2 d hw hd
+        simp only [get?_set] at hw
+        by_cases e : w = v
+        · subst e; simp only [ite_true, Option.some.injEq] at hw; subst hw; simp at hd
+        · simp only [e, ite_false] at hw
+          have := hi.stakers_have w vi2 d hw hd
+          simpa [get?_removeAll, e] using this
+      · intro d w sh hsh
+        simp only [get?_removeAll] at hsh
+        split at hsh
+        · simp at hsh
+        · rename_i hn
+          obtain ⟨vi2, hv2, hd⟩ := hi.stakes_listed d w sh hsh
+          by_cases e : w = v
+          · subst e
+            rw [hv] at hv2; simp only [Option.some.injEq] at hv2; subst hv2
+            exact absurd ⟨rfl, hd⟩ hn
+          · exact ⟨vi2, by simp [get?_set, e, hv2], hd⟩
     · simp only [Outcome.ok.injEq] at h; subst h
       apply SInv_of_same_shape hi
       · intro k; simp only [get?_scaleAll]; cases get? s.stakes k <;> rfl
@@ -389,7 +389,7 @@ theorem SInv_applySlash {s s' : SState} {v : String} {vi : ValInfo} {rem : Dec} 
         · subst e; simp [hv]
         · simp [e]
       · rfl
-    · simp at h
+  · simp at h
 
 theorem SInv_dropIfEmpty {s : SState} (hi : SInv s) (u : Unbonding) (rest : List Unbonding) :
     SInv (dropIfEmpty s u rest) := by
@@ -538,6 +538,427 @@ theorem updateStake_no_panic (s : SState) (now : Nat) (d : Addr) (v : String) (a
   · simp
   · rename_i h; exact absurd h this.1
   · rename_i h; exact absurd h this.2
+
+-- ---------------------------------------------------------------------------------------------
+-- Σ of the shares of a validator's records, and the invariant "validator total ≥ ⌊Σ shares⌋"
+
+/-- Σ of the stake atomics of all records of validator `v` -/
+def shareSum (stakes : KMap (Addr × String) Shares) (v : String) : Nat :=
+  ((stakes.filter fun p => p.1.2 = v).map (·.2.stake.atomics)).sum
+
+theorem shareSum_nil (v : String) : shareSum [] v = 0 := rfl
+
+theorem shareSum_cons (p : (Addr × String) × Shares) (m : KMap (Addr × String) Shares) (v : String) :
+    shareSum (p :: m) v = (if p.1.2 = v then p.2.stake.atomics else 0) + shareSum m v := by
+  unfold shareSum
+  by_cases h : p.1.2 = v <;> simp [List.filter_cons, h]
+
+theorem shareSum_erase_le (m : KMap (Addr × String) Shares) (k : Addr × String) (w : String) :
+    shareSum (erase m k) w ≤ shareSum m w := by
+  induction m with
+  | nil => exact Nat.le_refl _
+  | cons p m ih =>
+    by_cases h : p.1 = k
+    · have : erase (p :: m) k = erase m k := by simp [erase, List.filter_cons, h]
+      rw [this, shareSum_cons]; omega
+    · have : erase (p :: m) k = p :: erase m k := by simp [erase, List.filter_cons, h]
+      rw [this, shareSum_cons, shareSum_cons]; omega
+
+theorem shareSum_erase_get (m : KMap (Addr × String) Shares) (k : Addr × String) (w : String) (old : Shares)
+    (h : get? m k = some old) :
+    shareSum (erase m k) w + (if k.2 = w then old.stake.atomics else 0) ≤ shareSum m w := by
+  induction m with
+  | nil => simp at h
+  | cons p m ih =>
+    obtain ⟨k', sh⟩ := p
+    rw [get?_cons] at h
+    by_cases h1 : k' = k
+    · simp only [h1, ite_true, Option.some.injEq] at h
+      subst h; subst h1
+      have e : erase ((k', sh) :: m) k' = erase m k' := by simp [erase, List.filter_cons]
+      have := shareSum_erase_le m k' w
+      rw [e, shareSum_cons]; simp only; omega
+    · simp only [h1, ite_false] at h
+      have e : erase ((k', sh) :: m) k = (k', sh) :: erase m k := by simp [erase, List.filter_cons, h1]
+      have := ih h
+      rw [e, shareSum_cons, shareSum_cons]; omega
+
+theorem shareSum_set (m : KMap (Addr × String) Shares) (k : Addr × String) (new : Shares) (w : String) :
+    shareSum (KMap.set m k new) w = (if k.2 = w then new.stake.atomics else 0) + shareSum (erase m k) w := by
+  unfold KMap.set; rw [shareSum_cons]
+
+/-- a pass that keeps the stake of every record of `w` keeps the sum -/
+theorem shareSum_mapVal (m : KMap (Addr × String) Shares) (F : Addr × String → Shares → Shares) (w : String)
+    (hF : ∀ k sh, k.2 = w → (F k sh).stake = sh.stake) :
+    shareSum (m.map fun p => (p.1, F p.1 p.2)) w = shareSum m w := by
+  induction m with
+  | nil => rfl
+  | cons p m ih =>
+    simp only [List.map_cons, shareSum_cons, ih]
+    by_cases h : p.1.2 = w
+    · simp [h, hF p.1 p.2 h]
+    · simp [h]
+
+theorem mem_isSome {m : KMap (Addr × String) Shares} {p : (Addr × String) × Shares} (h : p ∈ m) :
+    (get? m p.1).isSome := by
+  induction m with
+  | nil => simp at h
+  | cons q m ih =>
+    obtain ⟨k', sh⟩ := q
+    rw [get?_cons]
+    by_cases e : k' = p.1
+    · simp [e]
+    · simp only [e, ite_false]
+      rcases List.mem_cons.mp h with rfl | h2
+      · exact absurd rfl e
+      · exact ih h2
+
+theorem le_shareSum {m : KMap (Addr × String) Shares} {d : Addr} {v : String} {sh : Shares}
+    (h : get? m (d, v) = some sh) : sh.stake.atomics ≤ shareSum m v := by
+  induction m with
+  | nil => simp at h
+  | cons p m ih =>
+    obtain ⟨k', sh'⟩ := p
+    rw [get?_cons] at h
+    rw [shareSum_cons]
+    by_cases e : k' = (d, v)
+    · simp only [e, ite_true, Option.some.injEq] at h; subst h; subst e; simp
+    · simp only [e, ite_false] at h
+      have := ih h; omega
+
+/-- under I2 the accumulator of `slash` (records owned by the stakers) is the sum over all records of the validator -/
+theorem sumShares_eq_shareSum (m : KMap (Addr × String) Shares) (v : String) (l : List Addr)
+    (h : ∀ p ∈ m, p.1.2 = v → p.1.1 ∈ l) : sumShares m v l = shareSum m v := by
+  induction m with
+  | nil => rfl
+  | cons p m ih =>
+    have ih' := ih (fun q hq => h q (List.mem_cons_of_mem _ hq))
+    have hp := h p List.mem_cons_self
+    unfold sumShares at ih' ⊢
+    rw [shareSum_cons]
+    by_cases e : p.1.2 = v
+    · simp only [List.filter_cons, e, hp e, and_self, decide_true, ite_true, List.map_cons, List.sum_cons, ih']
+    · simp only [List.filter_cons, e, false_and, decide_false, Bool.false_eq_true, ite_false, ih', Nat.zero_add]
+
+theorem mem_scaleAll_key {m : KMap (Addr × String) Shares} {v : String} {l : List Addr} {rem : Dec}
+    {p : (Addr × String) × Shares} (h : p ∈ scaleAll m v l rem) : ∃ q ∈ m, q.1 = p.1 := by
+  simp only [scaleAll, List.mem_map] at h
+  obtain ⟨q, hq, rfl⟩ := h
+  exact ⟨q, hq, rfl⟩
+
+theorem removeAll_cons (p : (Addr × String) × Shares) (m : KMap (Addr × String) Shares) (v : String) (l : List Addr) :
+    removeAll (p :: m) v l = if p.1.2 = v ∧ p.1.1 ∈ l then removeAll m v l else p :: removeAll m v l := by
+  unfold removeAll
+  by_cases e : p.1.2 = v ∧ p.1.1 ∈ l
+  · rw [if_pos e, List.filter_cons]; simp [e]
+  · rw [if_neg e, List.filter_cons]; simp [e]
+
+theorem shareSum_removeAll_other (m : KMap (Addr × String) Shares) (v w : String) (l : List Addr) (hw : w ≠ v) :
+    shareSum (removeAll m v l) w = shareSum m w := by
+  induction m with
+  | nil => rfl
+  | cons p m ih =>
+    rw [removeAll_cons]
+    by_cases e : p.1.2 = v ∧ p.1.1 ∈ l
+    · have : ¬ p.1.2 = w := fun x => hw (x.symm.trans e.1)
+      rw [if_pos e, ih, shareSum_cons, if_neg this, Nat.zero_add]
+    · rw [if_neg e, shareSum_cons, shareSum_cons, ih]
+
+theorem shareSum_removeAll_self (m : KMap (Addr × String) Shares) (v : String) (l : List Addr)
+    (h : ∀ p ∈ m, p.1.2 = v → p.1.1 ∈ l) : shareSum (removeAll m v l) v = 0 := by
+  induction m with
+  | nil => rfl
+  | cons p m ih =>
+    have ih' := ih (fun q hq => h q (List.mem_cons_of_mem _ hq))
+    have hp := h p List.mem_cons_self
+    rw [removeAll_cons]
+    by_cases e : p.1.2 = v
+    · rw [if_pos ⟨e, hp e⟩, ih']
+    · have : ¬ (p.1.2 = v ∧ p.1.1 ∈ l) := fun x => e x.1
+      rw [if_neg this, shareSum_cons, if_neg e, ih']
+
+/-- the validator total never falls below the whole tokens of the sum of the shares of its records -/
+def TInv (s : SState) : Prop := ∀ v vi, get? s.vinfo v = some vi → shareSum s.stakes v / Dec.ONE ≤ vi.stake
+
+theorem shareSum_creditAll (stakes : KMap (Addr × String) Shares) (v : String) (vi : ValInfo) (nr : Dec) (w : String) :
+    shareSum (creditAll stakes v vi nr) w = shareSum stakes w := by
+  unfold creditAll
+  exact shareSum_mapVal stakes (fun k sh => if k.2 = v ∧ k.1 ∈ vi.stakers then
+    { sh with rewards := Dec.add sh.rewards (shareOfRewards sh vi nr) } else sh) w
+    (by intro k sh _; split <;> rfl)
+
+theorem shareSum_scaleAll_other (stakes : KMap (Addr × String) Shares) (v : String) (l : List Addr) (rem : Dec)
+    (w : String) (hw : w ≠ v) : shareSum (scaleAll stakes v l rem) w = shareSum stakes w := by
+  unfold scaleAll
+  exact shareSum_mapVal stakes (fun k sh => if k.2 = v ∧ k.1 ∈ l then { sh with stake := Dec.mul sh.stake rem } else sh) w
+    (by intro k sh hk
+        have : ¬ (k.2 = v ∧ k.1 ∈ l) := fun x => hw (hk.symm.trans x.1)
+        simp [this])
+
+/-- crediting rewards does not change any share -/
+theorem updR_sums {s s' : SState} {now : Nat} {v : String} (h : updateRewards s now v = .ok s') (w : String) :
+    shareSum s'.stakes w = shareSum s.stakes w := by
+  unfold updateRewards at h
+  split at h
+  · simp at h
+  · split at h
+    · simp at h
+    · split at h
+      · simp only [Outcome.ok.injEq] at h; subst h; rfl
+      · split at h
+        · split at h
+          · simp only [Outcome.ok.injEq] at h; subst h; rfl
+          · split at h
+            · simp only [Outcome.ok.injEq] at h; subst h
+              exact shareSum_creditAll _ _ _ _ _
+            · simp at h
+        · simp at h
+        · simp at h
+        · simp at h
+
+theorem UR_self'0 {s s' : SState} {now : Nat} {v : String} (ur : UR s now v s') :
+    ∃ vi vi1, get? s.vinfo v = some vi ∧ get? s'.vinfo v = some vi1 ∧ vi1.stakers = vi.stakers ∧
+      vi1.stake = vi.stake ∧ (vi.last ≤ now → vi1.last ≤ now) := by
+  obtain ⟨vi, hvi, hvi1⟩ := ur.vinfo_self
+  refine ⟨vi, _, hvi, hvi1, rfl, rfl, ?_⟩
+  intro h; simp only; split <;> omega
+
+theorem TInv_updR {s s' : SState} {now : Nat} {v : String} (ht : TInv s) (h : updateRewards s now v = .ok s') :
+    TInv s' := by
+  have ur := updR_ok h
+  obtain ⟨vi, vi1, hvi, hvi1, _, hstk, _⟩ := UR_self'0 ur
+  intro w vi2 hw
+  rw [updR_sums h w]
+  by_cases e : w = v
+  · subst e
+    rw [hvi1] at hw; simp only [Option.some.injEq] at hw; subst hw
+    rw [hstk]; exact ht w vi hvi
+  · rw [ur.vinfo_other w e] at hw; exact ht w vi2 hw
+
+theorem div_add_le_of_add_le {x y a : Nat} (h : y + Dec.ONE * a ≤ x) : y / Dec.ONE + a ≤ x / Dec.ONE := by
+  have h1 : (y + Dec.ONE * a) / Dec.ONE = y / Dec.ONE + a := Nat.add_mul_div_left _ _ Dec.ONE_pos
+  have h2 : (y + Dec.ONE * a) / Dec.ONE ≤ x / Dec.ONE := Nat.div_le_div_right h
+  omega
+
+/-- the sums of the shares after the "save updated values" tail of `update_stake` -/
+theorem shareSum_stakeSaved (s : SState) (d : Addr) (v : String) (sh' : Shares) (vi' : ValInfo) (w : String) :
+    shareSum (stakeSaved s d v sh' vi').stakes w + (if w = v then (curShares s d v).stake.atomics else 0)
+      ≤ shareSum s.stakes w + (if w = v then sh'.stake.atomics else 0) := by
+  have hold : ∀ w, shareSum (erase s.stakes (d, v)) w + (if v = w then (curShares s d v).stake.atomics else 0)
+      ≤ shareSum s.stakes w := by
+    intro w
+    unfold curShares
+    cases hg : get? s.stakes (d, v) with
+    | none =>
+      have := shareSum_erase_le s.stakes (d, v) w
+      simp only [Option.getD_none, Shares.dflt, Dec.zero]; split <;> omega
+    | some sh =>
+      have := shareSum_erase_get s.stakes (d, v) w sh hg
+      simpa using this
+  have := hold w
+  unfold stakeSaved
+  split
+  · rename_i hz
+    have hz' : sh'.stake.atomics = 0 := by simpa [Dec.isZero] using hz
+    by_cases e : w = v
+    · subst e; simp only [ite_true] at this ⊢; omega
+    · have e' : ¬ v = w := fun x => e x.symm
+      simp only [e, e', ite_false] at this ⊢; omega
+  · simp only [shareSum_set]
+    by_cases e : w = v
+    · subst e; simp only [ite_true] at this ⊢; omega
+    · have e' : ¬ v = w := fun x => e x.symm
+      simp only [e, e', ite_false] at this ⊢; omega
+
+theorem get?_stakeSaved_vinfo' (s : SState) (d : Addr) (v : String) (sh' : Shares) (vi' : ValInfo) (w : String) :
+    get? (stakeSaved s d v sh' vi').vinfo w =
+      if w = v then some { vi' with stakers := if sh'.stake.isZero then setErase vi'.stakers d else setInsert vi'.stakers d }
+      else get? s.vinfo w := by
+  unfold stakeSaved
+  split
+  · rename_i hz; simp only [get?_set, hz, ite_true]
+  · rename_i hz; simp only [get?_set, hz]
+
+/-- `update_stake` after `update_rewards` keeps `TInv`: both sides move by the same whole amount -/
+theorem TInv_applyStake {s s' : SState} {now : Nat} {d : Addr} {v : String} {amount : Nat} {sub : Bool}
+    (ht : TInv s) (vi0 : ValInfo) (hv : get? s.vinfo v = some vi0)
+    (h : applyStake s now d v amount sub = .ok s') : TInv s' := by
+  unfold applyStake at h
+  rw [viOf_of_get hv] at h
+  by_cases hsub : sub = true
+  · simp only [hsub, ite_true] at h
+    split at h
+    · simp at h
+    · rename_i sh hsh
+      by_cases h2 : sh.stake < Dec.ofNat amount
+      · simp [h2] at h
+      · by_cases h3 : vi0.stake < amount
+        · simp [h2, h3] at h
+        · simp only [h2, h3, ite_false, Outcome.ok.injEq] at h; subst h
+          intro w vi2 hw
+          have hs := shareSum_stakeSaved s d v { sh with stake := Dec.sub sh.stake (Dec.ofNat amount) }
+            { vi0 with stake := vi0.stake - amount } w
+          rw [get?_stakeSaved_vinfo'] at hw
+          by_cases e : w = v
+          · subst e
+            simp only [ite_true, Option.some.injEq] at hw; subst hw
+            have hc : (curShares s d w).stake.atomics = sh.stake.atomics := by simp [curShares, hsh]
+            have hge : Dec.ONE * amount ≤ sh.stake.atomics := Nat.le_of_not_lt h2
+            simp only [ite_true, hc, Dec.sub, Dec.ofNat] at hs
+            have := ht w vi0 hv
+            have := div_add_le_of_add_le (x := shareSum s.stakes w) (a := amount)
+              (y := shareSum (stakeSaved s d w { stake := Dec.sub sh.stake (Dec.ofNat amount), rewards := sh.rewards }
+                { stakers := vi0.stakers, stake := vi0.stake - amount, last := vi0.last }).stakes w) (by
+                simp only [Dec.sub, Dec.ofNat]; omega)
+            simp only; omega
+          · simp only [e, ite_false] at hw hs
+            have := ht w vi2 hw
+            have : shareSum (stakeSaved s d v { stake := Dec.sub sh.stake (Dec.ofNat amount), rewards := sh.rewards }
+                { stakers := vi0.stakers, stake := vi0.stake - amount, last := vi0.last }).stakes w / Dec.ONE
+                ≤ shareSum s.stakes w / Dec.ONE := Nat.div_le_div_right (by omega)
+            omega
+  · simp only [hsub, Bool.false_eq_true, ite_false, Outcome.ok.injEq] at h; subst h
+    intro w vi2 hw
+    have hs := shareSum_stakeSaved s d v
+      { curShares s d v with stake := Dec.add (curShares s d v).stake (Dec.ofNat amount) }
+      { vi0 with stake := vi0.stake + amount } w
+    rw [get?_stakeSaved_vinfo'] at hw
+    by_cases e : w = v
+    · subst e
+      simp only [ite_true, Option.some.injEq] at hw; subst hw
+      simp only [ite_true, Dec.add, Dec.ofNat] at hs
+      have := ht w vi0 hv
+      have h1 : (shareSum s.stakes w + Dec.ONE * amount) / Dec.ONE = shareSum s.stakes w / Dec.ONE + amount :=
+        Nat.add_mul_div_left _ _ Dec.ONE_pos
+      have h2 : shareSum (stakeSaved s d w
+          { stake := Dec.add (curShares s d w).stake (Dec.ofNat amount), rewards := (curShares s d w).rewards }
+          { stakers := vi0.stakers, stake := vi0.stake + amount, last := vi0.last }).stakes w / Dec.ONE
+          ≤ (shareSum s.stakes w + Dec.ONE * amount) / Dec.ONE := Nat.div_le_div_right (by
+            simp only [Dec.add, Dec.ofNat]; omega)
+      simp only; omega
+    · simp only [e, ite_false] at hw hs
+      have := ht w vi2 hw
+      have : shareSum (stakeSaved s d v
+          { stake := Dec.add (curShares s d v).stake (Dec.ofNat amount), rewards := (curShares s d v).rewards }
+          { stakers := vi0.stakers, stake := vi0.stake + amount, last := vi0.last }).stakes w / Dec.ONE
+          ≤ shareSum s.stakes w / Dec.ONE := Nat.div_le_div_right (by omega)
+      omega
+
+/-- I2 on list elements: every record of `v` is owned by a staker of `v` -/
+theorem owners_listed {s : SState} (hi : SInv s) {v : String} {vi : ValInfo} (hv : get? s.vinfo v = some vi) :
+    ∀ p ∈ s.stakes, p.1.2 = v → p.1.1 ∈ vi.stakers := by
+  intro p hp hpv
+  have h1 := mem_isSome hp
+  cases hg : get? s.stakes p.1 with
+  | none => simp [hg] at h1
+  | some sh =>
+    have hg' : get? s.stakes (p.1.1, p.1.2) = some sh := hg
+    obtain ⟨vi2, hv2, hd⟩ := hi.stakes_listed p.1.1 p.1.2 sh hg'
+    rw [hpv, hv] at hv2
+    simp only [Option.some.injEq] at hv2; subst hv2; exact hd
+
+theorem owners_listed_scaled {s : SState} (hi : SInv s) {v : String} {vi : ValInfo} (hv : get? s.vinfo v = some vi)
+    (l : List Addr) (rem : Dec) : ∀ p ∈ scaleAll s.stakes v l rem, p.1.2 = v → p.1.1 ∈ vi.stakers := by
+  intro p hp hpv
+  obtain ⟨q, hq, e⟩ := mem_scaleAll_key hp
+  have := owners_listed hi hv q hq (by rw [e]; exact hpv)
+  rw [e] at this; exact this
+
+theorem TInv_applySlash {s s' : SState} {v : String} {vi : ValInfo} {rem : Dec} (hi : SInv s) (ht : TInv s)
+    (hv : get? s.vinfo v = some vi) (h : applySlash s v vi rem = .ok s') : TInv s' := by
+  unfold applySlash at h
+  split at h
+  · split at h
+    · simp only [Outcome.ok.injEq] at h; subst h
+      intro w vi2 hw
+      simp only [get?_set] at hw
+      by_cases e : w = v
+      · subst e
+        simp only [ite_true, Option.some.injEq] at hw; subst hw
+        simp only [shareSum_removeAll_self _ _ _ (owners_listed hi hv)]
+        simp
+      · simp only [e, ite_false] at hw
+        simp only [shareSum_removeAll_other _ _ _ _ e]
+        exact ht w vi2 hw
+    · simp only [Outcome.ok.injEq] at h; subst h
+      intro w vi2 hw
+      simp only [get?_set] at hw
+      by_cases e : w = v
+      · subst e
+        simp only [ite_true, Option.some.injEq] at hw; subst hw
+        simp only [sumShares_eq_shareSum _ _ _ (owners_listed_scaled hi hv vi.stakers rem)]
+        exact Nat.le_refl _
+      · simp only [e, ite_false] at hw
+        simp only [shareSum_scaleAll_other _ _ _ _ _ e]
+        exact ht w vi2 hw
+  · simp at h
+
+theorem TInv_dropIfEmpty {s : SState} (hi : SInv s) (ht : TInv s) (u : Unbonding) (rest : List Unbonding) :
+    TInv (dropIfEmpty s u rest) := by
+  unfold dropIfEmpty
+  split
+  · rename_i sh hsh
+    split
+    · obtain ⟨vi, hv, _⟩ := hi.stakes_listed _ _ sh hsh
+      have he : eraseStaker s.vinfo u.validator u.delegator =
+          KMap.set s.vinfo u.validator { vi with stakers := setErase vi.stakers u.delegator } := by
+        simp [eraseStaker, hv]
+      intro w vi2 hw
+      simp only [he, get?_set] at hw
+      have hle : shareSum (erase s.stakes (u.delegator, u.validator)) w / Dec.ONE ≤ shareSum s.stakes w / Dec.ONE :=
+        Nat.div_le_div_right (shareSum_erase_le _ _ _)
+      split at hw
+      · rename_i e
+        simp only [Option.some.injEq] at hw; subst hw
+        have := ht w vi (by rw [e]; exact hv)
+        simp only; omega
+      · have := ht w vi2 hw
+        simp only; omega
+    · exact ht
+  · exact ht
+
+theorem TInv_setRewards {s : SState} (ht : TInv s) (k : Addr × String) (sh : Shares) (r : Dec)
+    (h : get? s.stakes k = some sh) : TInv { s with stakes := KMap.set s.stakes k { sh with rewards := r } } := by
+  intro w vi hw
+  have h1 := shareSum_erase_get s.stakes k w sh h
+  have h2 : shareSum (KMap.set s.stakes k { sh with rewards := r }) w ≤ shareSum s.stakes w := by
+    rw [shareSum_set]; simp only; omega
+  have := ht w vi hw
+  have : shareSum (KMap.set s.stakes k { sh with rewards := r }) w / Dec.ONE ≤ shareSum s.stakes w / Dec.ONE :=
+    Nat.div_le_div_right h2
+  simp only; omega
+
+/-- consequence of `TInv`: a delegation's whole tokens never exceed the validator total; in particular a shown
+(positive) delegation means a positive validator total, and the share/total ratio stays below 2 -/
+theorem floor_le_total {s : SState} (ht : TInv s) {d : Addr} {v : String} {sh : Shares} {vi : ValInfo}
+    (hs : get? s.stakes (d, v) = some sh) (hv : get? s.vinfo v = some vi) : sh.stake.floor ≤ vi.stake := by
+  have h1 := le_shareSum hs
+  have h2 := ht v vi hv
+  have : sh.stake.atomics / Dec.ONE ≤ shareSum s.stakes v / Dec.ONE := Nat.div_le_div_right h1
+  unfold Dec.floor; omega
+
+theorem share_lt_total_succ {s : SState} (ht : TInv s) {d : Addr} {v : String} {sh : Shares} {vi : ValInfo}
+    (hs : get? s.stakes (d, v) = some sh) (hv : get? s.vinfo v = some vi) :
+    sh.stake.atomics < Dec.ONE * (vi.stake + 1) := by
+  have h1 := le_shareSum hs
+  have h2 := ht v vi hv
+  have h3 : shareSum s.stakes v < Dec.ONE * (shareSum s.stakes v / Dec.ONE + 1) := by
+    have := Nat.lt_div_mul_add (a := shareSum s.stakes v) Dec.ONE_pos
+    rw [Nat.mul_add, Nat.mul_one, Nat.mul_comm]; exact this
+  have h4 : Dec.ONE * (shareSum s.stakes v / Dec.ONE + 1) ≤ Dec.ONE * (vi.stake + 1) :=
+    Nat.mul_le_mul_left _ (by omega)
+  omega
+
+theorem updateStake_tinv {s s' : SState} {now : Nat} {d : Addr} {v : String} {amount : Nat} {sub : Bool}
+    (ht : TInv s) (h : updateStake s now d v amount sub = .ok s') : TInv s' := by
+  unfold updateStake at h
+  split at h
+  · rename_i s1 h1
+    obtain ⟨vi, vi1, _, hvi1, _⟩ := UR_self'0 (updR_ok h1)
+    exact TInv_applyStake (TInv_updR ht h1) vi1 hvi1 h
+  · simp at h
+  · simp at h
+  · simp at h
 
 end Staking
 end CwMt
